@@ -109,37 +109,132 @@ def utxoTag (l : List Utxo) : String :=
   let sameTx := decide ((l.map (·.txid)).eraseDups.length < l.length)
   s!"n={min l.length 5}:time-ties={ties}:same-txid={sameTx}:unconfirmed={min (l.filter (!·.confirmed)).length 3}:distinct={decide (OutpointsDistinct l)}"
 
+/-! ### `batch`: one executor and one proposal store across a sequence of batches -/
+
+def parseKey (s : String) : Option Key :=
+  match s.splitOn "." with
+  | [a, b, c] => do pure (← a.toNat?, ← b.toNat?, ← c.toNat?)
+  | _ => none
+
+def showKey (k : Key) : String := s!"{k.1}.{k.2.1}.{k.2.2}"
+
+def parseStatus (s : String) : Option PStatus :=
+  match s with
+  | "m" => some .missing | "f" => some .failed | "p" => some .pending | "e" => some .executed
+  | "x" => some .readErr | "w" => some .writeErr | _ => none
+
+def showStatus : PStatus → String
+  | .missing => "m" | .failed => "f" | .pending => "p" | .executed => "e" | .readErr => "x" | .writeErr => "w"
+
+def parseStore (s : String) : Option Store :=
+  (items s ";").mapM fun it =>
+    match it.splitOn "=" with
+    | [k, v] => do pure (← parseKey k, ← parseStatus v)
+    | _ => none
+
+/-- the harness prints the store as sorted `key=status` entries -/
+def dumpStore (st : Store) : String :=
+  let ks := (st.map (·.1)).eraseDups
+  joinOr ((ks.map fun k => showKey k ++ "=" ++ showStatus (lookup st k)).mergeSort (fun a b => a ≤ b)) ";"
+
+/-- `src.dst.nonce,amount,recipient,script|x` -/
+def parseBProp (s : String) : Option BProp :=
+  match s.splitOn "," with
+  | [k, a, _, sc] => do
+    let k ← parseKey k
+    let a ← a.toNat?
+    let sc ← if sc = "x" then some none else (fromHex sc).map some
+    pure ⟨k, ⟨a, sc⟩⟩
+  | _ => none
+
+structure Batch where
+  outcome : String
+  ps      : List BProp
+
+def parseBatch (s : String) : Option Batch :=
+  match s.splitOn "^" with
+  | [o, ps] => do pure ⟨o, ← (items ps ";").mapM parseBProp⟩
+  | _ => none
+
+/-- indices of the selected proposals in the batch: first unused equal entry (the harness uses the same rule) -/
+def selIdx (ps : List BProp) (sel : List BProp) : List Nat :=
+  (sel.foldl (fun (acc : List Nat × List Nat) p =>
+    match (ps.zipIdx.find? fun (q, i) => q == p && !acc.2.contains i) with
+    | some (_, i) => (acc.1 ++ [i], i :: acc.2)
+    | none => (acc.1 ++ [ps.length], acc.2)) ([], [])).1
+
+def markAll (st : Store) (sel : List BProp) (v : PStatus) : Store := sel.foldl (fun st p => (p.key, v) :: st) st
+
+/-- the model's answer to one batch and the store afterwards -/
+def modelBatch (i : Inp) (st : Store) (b : Batch) : String × Store :=
+  match forExec st b.ps with
+  | (none, st') => ("err|st=" ++ dumpStore st', st')
+  | (some sel, st') =>
+    let tx := if sel.isEmpty then none else rawTx { i with props := sel.map (·.prp) }
+    let txs := if sel.isEmpty then "nothing" else match tx with | none => "err" | some t => (showTx t).replace "|" "/"
+    let st'' := match tx, b.outcome with
+      | some _, "e" => markAll st' sel .executed
+      | some _, "f" => markAll st' sel .failed
+      | _, _ => st'
+    (s!"sel={joinOr ((selIdx b.ps sel).map toString) ","}|{txs}|st={dumpStore st''}", st'')
+
+/-- the property on what the implementation did with one batch, given the store as the harness printed it BEFORE the batch:
+    no deposit selected twice, only missing/failed ones, in batch order; and the transaction built for the selection satisfies P16 -/
+def checkBatch (i : Inp) (pre : Store) (b : Batch) (impl : String) : Option Store :=
+  match impl.splitOn "|" with
+  | ["err", st] => (st.dropPrefix? "st=").bind fun x => parseStore x.toString
+  | [sel, tx, st] => do
+    let sel ← (sel.dropPrefix? "sel=").map (·.toString)
+    let idx ← natList sel
+    let post ← (st.dropPrefix? "st=").bind fun x => parseStore x.toString
+    let chosen ← idx.mapM fun k => b.ps[k]?
+    let increasing := (idx.zip (idx.drop 1)).all fun (a, c) => a < c
+    let selOk := increasing && decide (P16sel pre b.ps chosen)
+    let i' := { i with props := chosen.map (·.prp) }
+    let txOk :=
+      if tx = "nothing" then chosen.isEmpty
+      else if chosen.isEmpty then false
+      else if tx = "err" then true
+      else match parseTx (i.utxos.getD []) (tx.replace "/" "|") with
+        | some t => decide (P16 i' (some t))
+        | none => false
+    if selOk && txOk then some post else none
+  | _ => none
+
+/-- unparsable arguments (e.g. produced by the runner's shrinking of a structured argument) carry no property claim -/
+def badArgs : Verdict := ⟨"BADARGS", true, "badargs"⟩
+
 def handle (op : String) (args : List String) (impl : String) : Option Verdict :=
   match op, args with
   | "rawtx", [rate, cid, bridge, props, utxos] => some <| Id.run do
-    let some i := parseInp rate cid bridge props utxos | return bad
+    let some i := parseInp rate cid bridge props utxos | return badArgs
     return verdictTx "rawtx" i impl
   | "build", [rate, cid, bridge, props, utxos] => some <| Id.run do
-    let some i := parseInp rate cid bridge props utxos | return bad
+    let some i := parseInp rate cid bridge props utxos | return badArgs
     -- the executor sees what the UTXO service client returns: the listing, sorted
     let i := { i with utxos := i.utxos.map sortUtxos }
     return verdictTx "build" i impl
   | "utxos", [listing] => some <| Id.run do
-    let some l := (items listing ";").mapM parseUtxo | return bad
+    let some l := (items listing ";").mapM parseUtxo | return badArgs
     let m := sortUtxos l
     let ok := match parseUtxoOut impl with | some o => decide (P16sort l o) | none => false
     return ⟨showUtxos m, ok, s!"utxos:{utxoTag l}"⟩
   | "utxoperm", [l1, l2] => some <| Id.run do
     -- the real Utxos run on two listings of the same set; the property needs no model: both answers must be the same list
-    let some a := (items l1 ";").mapM parseUtxo | return bad
-    let some b := (items l2 ";").mapM parseUtxo | return bad
-    if !decide (a.Perm b) then return bad
+    let some a := (items l1 ";").mapM parseUtxo | return badArgs
+    let some b := (items l2 ";").mapM parseUtxo | return badArgs
+    if !decide (a.Perm b) then return badArgs
     let ok := match impl.splitOn "|" with
       | [o1, o2] => o1 == o2 && (match parseUtxoOut o1 with | some o => decide (o.Perm a) | none => false)
       | _ => false
     return ⟨showUtxos (sortUtxos a) ++ "|" ++ showUtxos (sortUtxos b), ok, s!"utxoperm:{utxoTag a}:same-order={decide (a = b)}"⟩
   | "buildperm", [rate, cid, bridge, props, l1, l2] => some <| Id.run do
     -- the real MempoolAPI + rawTx on two listings of the same UTXO set: same set and quotes ⇒ same transaction (or both refused)
-    let some i1 := parseInp rate cid bridge props l1 | return bad
-    let some i2 := parseInp rate cid bridge props l2 | return bad
-    let some a := i1.utxos | return bad
-    let some b := i2.utxos | return bad
-    if !decide (a.Perm b) then return bad
+    let some i1 := parseInp rate cid bridge props l1 | return badArgs
+    let some i2 := parseInp rate cid bridge props l2 | return badArgs
+    let some a := i1.utxos | return badArgs
+    let some b := i2.utxos | return badArgs
+    if !decide (a.Perm b) then return badArgs
     let sh (i : Inp) : String := match rawTx { i with utxos := i.utxos.map sortUtxos } with | none => "err" | some tx => showTx tx
     let ok := match impl.splitOn "#" with
       | [t1, t2] => t1 == t2
@@ -147,21 +242,37 @@ def handle (op : String) (args : List String) (impl : String) : Option Verdict :
     let kind := if (rawTx { i1 with utxos := i1.utxos.map sortUtxos }).isSome then "tx" else "err"
     return ⟨sh i1 ++ "#" ++ sh i2, ok, s!"buildperm:{kind}:{utxoTag a}"⟩
   | "fee", [rate, i, o] => some <| Id.run do
-    let some i := i.toNat? | return bad
-    let some o := o.toNat? | return bad
+    let some i := i.toNat? | return badArgs
+    let some o := o.toNat? | return badArgs
     if rate = "x" then return ⟨"err", impl == "err", "fee:err"⟩
-    let some r := rate.toNat? | return bad
+    let some r := rate.toNat? | return badArgs
     let m := toString (feeOf r i o)
     return ⟨m, m == impl, s!"fee:wrap={decide (M ≤ (i * 180 + o * 34) * (r / 5 * 5 + 5))}"⟩
   | "msg", [amt, rcp] => some <| Id.run do
-    let some a := fromHex amt | return bad
-    let some r := fromHex rcp | return bad
+    let some a := fromHex amt | return badArgs
+    let some r := fromHex rcp | return badArgs
     let m := s!"{msgAmount a}/{toHexW r}/77/09"
     -- property: the proposal pays (payload amount / 10^10) to the payload's recipient, unaltered
     let ok := match impl.splitOn "/" with
       | [x, rr, n, rid] => x.toNat? == some (beToNat a / 10 ^ 10) && rr == toHexW r && n == "77" && rid == "09"
       | _ => false
     return ⟨m, ok || decide (M ≤ beToNat a / 10 ^ 10), s!"msg:wrap={decide (M ≤ beToNat a / 10 ^ 10)}:exact={decide (beToNat a % 10 ^ 10 = 0)}"⟩
+  | "batch", [rate, cid, bridge, store, utxos, batches] => some <| Id.run do
+    let some i := parseInp rate cid bridge "-" utxos | return badArgs
+    let some st0 := parseStore store | return badArgs
+    let some bs := (batches.splitOn "!").mapM parseBatch | return badArgs
+    let (outs, _) := bs.foldl (fun (acc : List String × Store) b =>
+      let (o, st') := modelBatch i acc.2 b
+      (acc.1 ++ [o], st')) ([], st0)
+    let impls := impl.splitOn "!"
+    -- predicate: every batch judged against the store the harness printed after the previous one
+    let ok := impls.length == bs.length &&
+      ((bs.zip impls).foldl (fun (acc : Option Store) (b, o) => acc.bind fun pre => checkBatch i pre b o) (some st0)).isSome
+    let dup := bs.any fun b => decide ((b.ps.map (·.key)).eraseDups.length < b.ps.length)
+    let cross := decide (((bs.map fun b => (b.ps.map (·.key)).eraseDups).flatten).eraseDups.length
+                          < ((bs.map fun b => (b.ps.map (·.key)).eraseDups).flatten).length)
+    let faults := st0.any fun e => e.2 = .readErr || e.2 = .writeErr
+    return ⟨"!".intercalate outs, ok, s!"batch:n={min bs.length 4}:dup-in-batch={dup}:dup-across={cross}:store-faults={faults}"⟩
   | _, _ => none
 
 end Sygma.Drv.C16
